@@ -73,6 +73,13 @@ pub fn function_family() -> Vec<FuncSpec> {
         func("ba", "ba", vec![p("Field", Ty::Bool)], vec![], ab.clone()),
         func("ab", "ab", vec![p("Field", ab.clone())], vec![], Ty::Bool),
         func("aa", "aa", vec![p("Field", ab.clone())], vec![], ab.clone()),
+        func(
+            "both",
+            "both",
+            vec![p("Field", Ty::Bool), p("Field", Ty::Bool)],
+            vec![],
+            Ty::Bool,
+        ),
         func("concat", "concat", vec![], vec![], Ty::Bytes),
         func("ctxfn", "ctxfn", vec![], vec![], Ty::Int),
     ]
@@ -557,6 +564,13 @@ pub struct FilterGen<'a> {
     pub max_depth: usize,
     /// values seen in contexts, to make comparisons hit
     pub hints: Vec<Val>,
+    /// knobs (percentages / sizes) that bias the generator towards a property's subject
+    pub call_pct: u32,
+    pub list_pct: u32,
+    pub set_pct: u32,
+    pub set_max: usize,
+    pub nest_pct: u32,
+    pub badname_pct: u32,
 }
 
 fn lop(r: &mut StdRng) -> Tok {
@@ -651,7 +665,7 @@ impl<'a> FilterGen<'a> {
         fn reach(ty: &Ty, want: &dyn Fn(&Ty) -> bool) -> bool {
             want(ty) || ty.elem().map(|e| reach(e, want)).unwrap_or(false)
         }
-        let use_call = !self.spec.funcs.is_empty() && depth < self.max_depth && self.r.random_range(0..4) == 0;
+        let use_call = !self.spec.funcs.is_empty() && depth < self.max_depth && self.r.random_range(0..100) < self.call_pct;
         if use_call {
             // calls whose (possibly map-each) type reaches want
             let fs: Vec<FuncSpec> = self.spec.funcs.clone();
@@ -821,7 +835,7 @@ impl<'a> FilterGen<'a> {
         let (mut out, _) = self.lhs(&move |t| *t == t2, vec, depth)?;
         match target {
             Ty::Bool => {}
-            Ty::Int => match self.r.random_range(0..10) {
+            Ty::Int => match self.pick_cmp(&Ty::Int) {
                 0..=5 => {
                     out.push(self.ord());
                     let x = self.int();
@@ -841,7 +855,7 @@ impl<'a> FilterGen<'a> {
                 _ => {
                     out.push(Tok::In);
                     out.push(Tok::Lbr);
-                    let n = self.r.random_range(0..5);
+                    let n = self.r.random_range(0..self.set_max + 1);
                     for _ in 0..n {
                         let a = self.int();
                         if self.r.random_range(0..2) == 0 {
@@ -863,7 +877,7 @@ impl<'a> FilterGen<'a> {
                     out.push(Tok::Rbr);
                 }
             },
-            Ty::Bytes => match self.r.random_range(0..10) {
+            Ty::Bytes => match self.pick_cmp(&Ty::Bytes) {
                 0..=4 => {
                     out.push(self.ord());
                     let b = self.bytes();
@@ -889,7 +903,7 @@ impl<'a> FilterGen<'a> {
                 _ => {
                     out.push(Tok::In);
                     out.push(Tok::Lbr);
-                    let n = self.r.random_range(0..4);
+                    let n = self.r.random_range(0..self.set_max + 1);
                     for _ in 0..n {
                         let b = self.bytes();
                         out.push(bytes_tok(self.r, &b, true));
@@ -897,7 +911,7 @@ impl<'a> FilterGen<'a> {
                     out.push(Tok::Rbr);
                 }
             },
-            _ => match self.r.random_range(0..10) {
+            _ => match self.pick_cmp(&Ty::Ip) {
                 0..=4 => {
                     out.push(self.ord());
                     let a = self.ip();
@@ -910,7 +924,7 @@ impl<'a> FilterGen<'a> {
                 _ => {
                     out.push(Tok::In);
                     out.push(Tok::Lbr);
-                    let n = self.r.random_range(0..4);
+                    let n = self.r.random_range(0..self.set_max + 1);
                     for _ in 0..n {
                         let a = self.ip();
                         match self.r.random_range(0..3) {
@@ -932,16 +946,44 @@ impl<'a> FilterGen<'a> {
         Some(out)
     }
 
+    /// choice among comparison forms: 0..=4 ordering, 5/6 type-specific, 7 (Int/Bytes) or 5 (Ip) list, 8.. brace set
+    fn pick_cmp(&mut self, t: &Ty) -> u32 {
+        let x = self.r.random_range(0..100);
+        if x < self.list_pct && self.has_list(t) {
+            return if *t == Ty::Ip { 5 } else { 7 };
+        }
+        if x < self.list_pct + self.set_pct {
+            return 9;
+        }
+        let c = self.r.random_range(0..8);
+        // without the list forms
+        match (t, c) {
+            (Ty::Ip, 5..) => 0,
+            (_, 7) => 0,
+            (_, c) => c,
+        }
+    }
+
     fn has_list(&self, t: &Ty) -> bool {
         self.spec.lists.contains(t)
     }
 
     fn list_tok(&mut self) -> Tok {
         let names: [&str; 4] = ["l1", "a.b", "x_9", "none"];
-        let n = names[self.r.random_range(0..4)];
+        let mut n = names[self.r.random_range(0..4)].to_string();
+        if self.r.random_range(0..100) < self.badname_pct {
+            let alpha = ['a', '1', '_', '.', 'A', '-', 'z'];
+            let k = self.r.random_range(1..5);
+            n = (0..k).map(|_| alpha[self.r.random_range(0..alpha.len())]).collect();
+        }
+        let b = n.as_bytes();
+        let valid = !b.is_empty()
+            && b.iter().all(|c| c.is_ascii_lowercase() || c.is_ascii_digit() || *c == b'_' || *c == b'.')
+            && b[0] != b'.'
+            && b[b.len() - 1] != b'.';
         Tok::List {
-            name: n.as_bytes().to_vec(),
-            valid: true,
+            name: b.to_vec(),
+            valid,
             txt: format!("${n}"),
         }
     }
@@ -956,7 +998,11 @@ impl<'a> FilterGen<'a> {
     /// a simple expression of type Bool (vec=false) or Array(Bool) (vec=true)
     fn simple(&mut self, vec: bool, depth: usize) -> Option<Vec<Tok>> {
         let deep = depth < self.max_depth;
-        let c = self.r.random_range(0..12);
+        let c = if self.r.random_range(0..100) < self.nest_pct {
+            self.r.random_range(0..4)
+        } else {
+            self.r.random_range(4..12)
+        };
         if deep && c == 0 {
             let mut out = vec![Tok::Lp];
             out.extend(self.chain(vec, depth + 1)?);
@@ -1029,6 +1075,92 @@ impl<'a> FilterGen<'a> {
         } else {
             Some(c)
         }
+    }
+
+    /// A filter whose deepest path nests exactly `n` constructs drawn from
+    /// { parenthesis, not, any/all, call argument list } (property C13).
+    pub fn nested(&mut self, n: usize) -> Vec<Tok> {
+        // build outermost-first; `vec` = type wanted at this level is Array(Bool)
+        let id = |s: &str| Tok::Id { name: s.into() };
+        let mut pre: Vec<Tok> = Vec::new();
+        let mut post: Vec<Tok> = Vec::new();
+        let mut vec = false;
+        let has_funcs = self.spec.func("bb").is_some();
+        let mut first_is_logical_start = true; // tracks nothing; kept for clarity
+        let _ = &mut first_is_logical_start;
+        for _ in 0..n {
+            let c = self.r.random_range(0..if has_funcs { 5 } else { 3 });
+            match (vec, c) {
+                (_, 0) => {
+                    pre.push(Tok::Lp);
+                    post.insert(0, Tok::Rp);
+                }
+                (_, 1) => pre.push(Tok::Not {
+                    a: self.r.random_range(0..2),
+                }),
+                (false, 2) => {
+                    pre.push(Tok::Quant {
+                        v: ["any", "all"][self.r.random_range(0..2)].into(),
+                    });
+                    pre.push(Tok::Lp);
+                    post.insert(0, Tok::Rp);
+                    vec = true;
+                }
+                (true, 2) => {
+                    pre.push(Tok::Lp);
+                    post.insert(0, Tok::Rp);
+                }
+                (false, 3) => {
+                    // bb(Bool) or ab(Array(Bool)) or both(Bool, deep) / both(deep, Bool)
+                    match self.r.random_range(0..4) {
+                        0 => {
+                            pre.extend([id("ab"), Tok::Lp]);
+                            post.insert(0, Tok::Rp);
+                            vec = true;
+                        }
+                        1 => {
+                            pre.extend([id("both"), Tok::Lp, id("b2"), Tok::Comma]);
+                            post.insert(0, Tok::Rp);
+                        }
+                        2 => {
+                            pre.extend([id("both"), Tok::Lp]);
+                            post.splice(0..0, [Tok::Comma, id("b3"), Tok::Rp]);
+                        }
+                        _ => {
+                            pre.extend([id("bb"), Tok::Lp]);
+                            post.insert(0, Tok::Rp);
+                        }
+                    }
+                }
+                (true, 3) => {
+                    if self.r.random_range(0..2) == 0 {
+                        pre.extend([id("aa"), Tok::Lp]);
+                        post.insert(0, Tok::Rp);
+                    } else {
+                        pre.extend([id("ba"), Tok::Lp]);
+                        post.insert(0, Tok::Rp);
+                        vec = false;
+                    }
+                }
+                (_, _) => {
+                    // the deep path as the right (or left) operand of a chain inside parentheses
+                    pre.push(Tok::Lp);
+                    let side = if vec { id("vb") } else { id("b1") };
+                    if self.r.random_range(0..2) == 0 {
+                        pre.push(side);
+                        pre.push(lop(self.r));
+                        post.insert(0, Tok::Rp);
+                    } else {
+                        post.splice(0..0, [lop(self.r), side, Tok::Rp]);
+                    }
+                }
+            }
+        }
+        let base = if vec { id("vb") } else { id("b1") };
+        let mut out = pre;
+        out.push(base);
+        out.extend(post);
+        out
     }
 
     pub fn filter(&mut self) -> Vec<Tok> {
